@@ -103,10 +103,11 @@ def probes(loc):
     return out
 
 
-def sys_history(rng, nlocs=None, nops=None, check_stream=False, cache_ttl=False, sleeps=False, clear_prob=0.02):
+def sys_history(rng, nlocs=None, nops=None, check_stream=False, cache_ttl=False, sleeps=False, clear_prob=0.02, marker_ops=0.0):
     """A request history over 2-3 locations. check_stream: sprinkle CreateLocation (some locations are created late,
     one may never be); cache_ttl: facts setting the `!cacheTTL` property (0 or one hour); sleeps: short pauses so that
-    a 1 ms TTL expires between requests."""
+    a 1 ms TTL expires between requests; marker_ops: probability per request of one more request that touches the
+    `createdAt` marker or opens a location unchecked (ClearLocation, RemFact of the marker's id, GetLocation)."""
     nlocs = nlocs or rng.randint(2, 3)
     locs = ["a", "b", "c"][:nlocs]
     nops = nops or rng.randint(10, 24)
@@ -123,6 +124,8 @@ def sys_history(rng, nlocs=None, nops=None, check_stream=False, cache_ttl=False,
             ops.append({"op": "remFact", "id": "!.cacheTTL", "loc": rng.choice(locs)})
         if sleeps and rng.random() < 0.12:
             ops.append({"op": "sleep", "ms": 2.5, "loc": rng.choice(locs)})
+        if marker_ops and rng.random() < marker_ops:
+            ops.append(marker_op(rng, rng.choice(locs)))
     if check_stream:
         never = rng.choice(locs + [None])
         for l in locs:
@@ -137,19 +140,67 @@ def sys_history(rng, nlocs=None, nops=None, check_stream=False, cache_ttl=False,
     return ops
 
 
-def proto_case(rng, ttl, state):
+def marker_op(rng, loc):
+    """one request of the kinds that used to make results depend on the TTL when existence is checked"""
+    r = rng.random()
+    if r < 0.35:
+        return {"op": "peek", "loc": loc}                          # System.GetLocation: unchecked open
+    if r < 0.65:
+        return {"op": "clear", "loc": loc}                         # ClearLocation keeps the marker
+    if r < 0.85:
+        return {"op": "remFact", "id": MARKER_ID, "loc": loc}      # the marker can still be removed by its id
+    return {"op": "create", "loc": loc}
+
+
+def marker_history(rng):
+    """Directed histories for CheckExistence on: a location that is created, cleared / un-marked and used again; a
+    location that is never created but opened unchecked (GetLocation) before checked requests; all end with probes."""
+    locs = ["a", "b"]
+    ops = []
+    f = lambda: {"a": rng.choice([1, 2, 3, "x"]), "b": rng.choice([1, 2])}
+    never = rng.choice(locs + [None])
+    for l in locs:
+        if l != never:
+            ops.append({"op": "create", "loc": l})
+    for _ in range(rng.randint(6, 14)):
+        l = rng.choice(locs)
+        r = rng.random()
+        if r < 0.35:
+            ops.append({"op": "addFact", "id": rng.choice(IDS[:3] + [""]), "fact": f(), "loc": l})
+        elif r < 0.50:
+            ops.append({"op": "search", "pattern": {"a": "?v"}, "inherited": False, "loc": l})
+        elif r < 0.58:
+            ops.append({"op": "getFact", "id": rng.choice(IDS[:3]), "loc": l})
+        elif r < 0.64:
+            ops.append({"op": "size", "loc": l})
+        elif r < 0.70:
+            ops.append({"op": "sleep", "ms": 2.5, "loc": l})
+        else:
+            ops.append(marker_op(rng, l))
+    for l in locs:
+        ops += [{"op": "getFact", "id": i, "loc": l} for i in IDS[:3]] + [{"op": "size", "loc": l}, {"op": "store", "loc": l}]
+    return ops
+
+
+def proto_case(rng, ttl, state, check=False):
     """Interleavings of requests at the granularity Open / Location call / Release over the exported cache protocol.
     finite TTL = 40 ms with pauses of 70 ms, so that clock brackets (µs) never straddle an expiry."""
     names = ["y", "z"][: rng.randint(1, 2)]
     steps, open_h, nh = [], {}, 0
     slept = 0
+    if check:
+        # existence is checked: some names are created up front, some later or never
+        for n in names:
+            if rng.random() < 0.6:
+                steps.append({"t": "req", "loc": n, "op": {"op": "create"}})
     for _ in range(rng.randint(6, 16)):
         r = rng.random()
         if r < 0.30 or not open_h:
             h = "h%d" % nh; nh += 1
             n = rng.choice(names)
             open_h[h] = n
-            steps.append({"t": "open", "h": h, "loc": n, "check": False})
+            # a failed open keeps its handle: its hold is dropped by the handle's release
+            steps.append({"t": "open", "h": h, "loc": n, "check": check and rng.random() < 0.7})
         elif r < 0.55:
             h = rng.choice(sorted(open_h))
             steps.append({"t": "op", "h": h, "op": small_op(rng)})
@@ -157,12 +208,50 @@ def proto_case(rng, ttl, state):
             h = rng.choice(sorted(open_h))
             steps.append({"t": "release", "h": h, "loc": open_h.pop(h)})
         elif r < 0.95:
-            steps.append({"t": "req", "loc": rng.choice(names), "op": small_op(rng)})
+            op = small_op(rng)
+            if check and rng.random() < 0.3:
+                op = {k: v for k, v in marker_op(rng, "").items() if k != "loc"}
+            steps.append({"t": "req", "loc": rng.choice(names), "op": op})
         elif ttl not in ("never", "forever") and slept < 2:
             slept += 1
             steps.append({"t": "sleep", "ms": 70, "loc": names[0]})
     for n in names:
         steps.append({"t": "req", "loc": n, "op": {"op": "search", "pattern": {"a": "?v"}, "inherited": False}})
+    return {"kind": "c17.proto", "ttl": ttl, "state": state, "check": check, "steps": steps}
+
+
+def overlap_case(rng, ttl, state):
+    """Directed: several holders of ONE name overlap, one of them releases after the entry's TTL has run out (TTL never:
+    at once; finite: after a pause) while the others go on using the instance; then somebody else asks for the name and
+    the remaining holders write. Every write acknowledged must be visible to every later request."""
+    n = "y"
+    k = rng.randint(2, 4)
+    hs = ["h%d" % i for i in range(k)]
+    steps = [{"t": "open", "h": h, "loc": n, "check": False} for h in hs]
+    if rng.random() < 0.5:
+        steps.insert(rng.randint(0, len(steps)), {"t": "req", "loc": n, "op": small_op(rng)})
+    if ttl not in ("never", "forever"):
+        steps.append({"t": "sleep", "ms": 70, "loc": n})
+    rng.shuffle(hs)
+    held = list(hs)
+    first = held.pop(0)
+    steps.append({"t": "release", "h": first, "loc": n})
+    srch = {"op": "search", "pattern": {"a": "?v"}, "inherited": False}
+    steps.append({"t": "req", "loc": n, "op": rng.choice([srch, small_op(rng)])})
+    fid = 0
+    while held:
+        r = rng.random()
+        if r < 0.45:
+            fid += 1
+            steps.append({"t": "op", "h": rng.choice(held), "op": {"op": "addFact", "id": "w%d" % fid, "fact": {"a": 7 + fid}}})
+        elif r < 0.60:
+            steps.append({"t": "req", "loc": n, "op": dict(srch)})
+        elif r < 0.70:
+            h = "g%d" % fid; fid += 1
+            steps.append({"t": "open", "h": h, "loc": n, "check": False}); held.append(h)
+        else:
+            steps.append({"t": "release", "h": held.pop(rng.randrange(len(held))), "loc": n})
+    steps.append({"t": "req", "loc": n, "op": dict(srch)})
     return {"kind": "c17.proto", "ttl": ttl, "state": state, "check": False, "steps": steps}
 
 
